@@ -6,6 +6,7 @@ import AffVerif.Judge.C17
 import AffVerif.Judge.Hist
 import AffVerif.Judge.C10
 import AffVerif.Judge.C15
+import AffVerif.Judge.C05M
 import AffVerif.Judge.C14
 import AffVerif.Judge.C09
 import AffVerif.Judge.C18
@@ -27,6 +28,7 @@ def judgeLine (line : String) : String :=
     | "C09" => judgeC09
     | "C14" => judgeC14
     | "C15" => judgeC15
+    | "C05M" => judgeC05M
     | "HIST" => judgeHist
     | "C17" => judgeC17
     | "C02" => judgeC02
